@@ -149,7 +149,16 @@ fn render_ev(ev: &SseEv, seqno: &mut u64) -> Vec<(Option<String>, String)> {
             };
             let ref_id = item_id.clone().or_else(|| call_id.clone()).unwrap_or_default();
             let inline = matches!(mode, ArgMode::Inline);
-            out.push((Some("response.output_item.added".into()), json!({"type": "response.output_item.added", "sequence_number": next(), "output_index": output_index, "item": item(if inline { args } else { "" }, "in_progress", true)}).to_string()));
+            // output_index == u64::MAX in the script means: the provider omits the field
+            let with_index = |mut v: Value| -> String {
+                if *output_index == u64::MAX {
+                    if let Some(o) = v.as_object_mut() {
+                        o.remove("output_index");
+                    }
+                }
+                v.to_string()
+            };
+            out.push((Some("response.output_item.added".into()), with_index(json!({"type": "response.output_item.added", "sequence_number": next(), "output_index": output_index, "item": item(if inline { args } else { "" }, "in_progress", true)}))));
             match mode {
                 ArgMode::Inline => {}
                 ArgMode::Deltas(n) => {
@@ -158,13 +167,13 @@ fn render_ev(ev: &SseEv, seqno: &mut u64) -> Vec<(Option<String>, String)> {
                     let per = chars.len().div_ceil(n).max(1);
                     for part in chars.chunks(per) {
                         let d: String = part.iter().collect();
-                        out.push((Some("response.function_call_arguments.delta".into()), json!({"type": "response.function_call_arguments.delta", "sequence_number": next(), "item_id": ref_id, "output_index": output_index, "delta": d}).to_string()));
+                        out.push((Some("response.function_call_arguments.delta".into()), with_index(json!({"type": "response.function_call_arguments.delta", "sequence_number": next(), "item_id": ref_id, "output_index": output_index, "delta": d}))));
                     }
                 }
-                ArgMode::DoneEvent => out.push((Some("response.function_call_arguments.done".into()), json!({"type": "response.function_call_arguments.done", "sequence_number": next(), "item_id": ref_id, "output_index": output_index, "arguments": args}).to_string())),
+                ArgMode::DoneEvent => out.push((Some("response.function_call_arguments.done".into()), with_index(json!({"type": "response.function_call_arguments.done", "sequence_number": next(), "item_id": ref_id, "output_index": output_index, "arguments": args})))),
             }
             if !never_done {
-                out.push((Some("response.output_item.done".into()), json!({"type": "response.output_item.done", "sequence_number": next(), "output_index": output_index, "item": item(if inline { args } else { "" }, "completed", !omit_call_id_on_done)}).to_string()));
+                out.push((Some("response.output_item.done".into()), with_index(json!({"type": "response.output_item.done", "sequence_number": next(), "output_index": output_index, "item": item(if inline { args } else { "" }, "completed", !omit_call_id_on_done)}))));
             }
         }
     }
